@@ -97,6 +97,10 @@ inductive Ev where
   | extset (i x : Nat)       -- another program writes key i (foreign value x)
   | park (w i : Nat)         -- WithContext attempt of w was refused at key i; it waits on the gate
   | wake (w : Nat)           -- the waiter takes the gate token and tries again (as a fresh attempt)
+  | parkErr (w : Nat)        -- the waiter's attempt failed on server errors only (no key refused it, none read):
+                             -- `try` returns the error, WithContext waits on the gate again, tracking nothing
+  | gate (w : Nat)           -- explicit `g.ch <- struct{}{}` of monitoring() when a successful lock of the same
+                             -- Locker has let go of all its keys and the gate has other users
 
 def setH (s : Sys) (v : Nat) (h : Holder) : Sys := { s with hs := upd s.hs v h }
 
@@ -157,6 +161,8 @@ def next (s : Sys) : Ev → Sys
     -- the refused attempt read key i (held by somebody) inside the script: tracked from now on;
     -- a token that is already in the channel stays there
     if s.regs i ≠ none then { s with ws := upd s.ws w { s.ws w with parked := true, blocked := i } } else s
+  | .parkErr w => { s with ws := upd s.ws w { s.ws w with parked := true, blocked := s.n } }
+  | .gate w => { s with ws := upd s.ws w { s.ws w with token := true } }
   | .wake w =>
     let x := s.ws w
     if x.parked = true ∧ x.token = true then { s with ws := upd s.ws w { x with parked := false, token := false } } else s
@@ -176,6 +182,12 @@ fails with an error, `acqErr`, is allowed) -/
 def clean : Ev → Bool
   | .force _ _ | .extdel _ | .expire _ | .monErr _ _ | .extset _ _ => false
   | _ => true
+
+/-- the one event after which a waiter is parked without tracking a held key: its attempt ended
+with a server error instead of a refusal -/
+def faultPark : Ev → Bool
+  | .parkErr _ => true
+  | _ => false
 
 /-- a holder whose lock context is live in the caller's hands -/
 def live (s : Sys) (v : Nat) : Bool := (s.hs v).returned && !(s.hs v).cancelled
